@@ -472,7 +472,7 @@ def tlc_observe(ctx, records):
 
 def plans(quick):
     big = dict(maxobj=6, maxedge=3, exkinds="MCExBig", root=True)
-    emb = dict(maxobj=9, maxedge=1, exkinds="MCExBig", root=True, kinds="MCKindsEmbed", rels="MCRelsEmbed", cand="MCCandEmbed",
+    emb = dict(maxobj=8, maxedge=1, exkinds="MCExBig", root=True, kinds="MCKindsEmbed", rels="MCRelsEmbed", cand="MCCandEmbed",
                thinfrom=99, thinmod=1)
     if quick:
         return [("rembed", dict(emb, maxobj=8)), ("rall", dict(big, kinds="MCAllKinds", rels="MCAllRels", thinfrom=3, thinmod=8)),
